@@ -85,7 +85,7 @@ Definition fixes_patched (mf : fixes) : bool := fx_memo mf && fx_meta mf && fx_r
 
 Definition needs (c : check) : list fact :=
   match c with
-  | KReqNotNil | KAlwaysErr | KMayStop | KDeep => []
+  | KReqNotNil | KAlwaysErr | KMayStop | KDeep | KDone => []
   | KMustAddr p => [FReq; FAcc p]
   | KIntPositive p | KIntNonNeg p | KIntUse p => [FReq; FIntNotNil p]
   | KNewCoinAmt p => [FReq; FIntNotNil p; FIntNonNeg p]
@@ -416,6 +416,7 @@ Proof.
   - (* KMayStop *) destruct o as [|[] o']; try discriminate.
     apply (IH (gives KMayStop ++ have)); auto.
   - (* KDeep *) discriminate.
+  - (* KDone *) discriminate.
 Qed.
 
 (* ------------------------------------------------------------------ the whole table *)
@@ -724,4 +725,52 @@ Proof.
   cbv [spec_of find_spec specs String.eqb Ascii.eqb Bool.eqb g u all_on hf_on app].
   simpl. unfold rd2, rd. simpl. unfold okif. rewrite Hlen, Hlt, Hall.
   destruct (forallb (idx_ok n) idx); reflexivity.
+Qed.
+
+(* ------------------------------------------------------------------ pool parameters *)
+(* the accepted base offsets form the OPEN interval (-1, 1) ... *)
+Lemma pool_offset_open : forall d, pool_offset_ok d = true <-> - P < d < P.
+Proof. intros d. unfold pool_offset_ok. rewrite Z.ltb_lt. lia. Qed.
+(* ... so the integer part of the exponent handed to Pow is 0: the conversion to uint64 for
+   LegacyDec.Power never sees a negative number *)
+Lemma pool_offset_integer_part : forall d, pool_offset_ok d = true -> pow_integer_part d = 0.
+Proof.
+  intros d H. apply pool_offset_open in H. unfold pow_integer_part.
+  destruct (Z.le_gt_cases 0 d) as [Hd|Hd].
+  - apply Z.quot_small. lia.
+  - rewrite <- (Z.opp_involutive d), Z.quot_opp_l by (unfold P; lia).
+    rewrite Z.quot_small by lia. reflexivity.
+Qed.
+(* a closed interval accepts -1, whose integer part is -1 (as a uint64: 2^64 - 1, Power overflows) *)
+Lemma pool_offset_closed_interval_unsound :
+  pool_offset_ok_closed (- P) = true /\ pool_offset_ok (- P) = false /\ pow_integer_part (- P) = -1.
+Proof. vm_compute. repeat split; reflexivity. Qed.
+Lemma pool_fee_range : forall d, pool_fee_ok d = true <-> 0 <= d < P.
+Proof. intros d. unfold pool_fee_ok. rewrite andb_true_iff, Z.leb_le, Z.ltb_lt. tauto. Qed.
+Lemma pool_ratio_range : forall d, pool_ratio_ok d = true <-> MIN_PRICE_RATIO <= d <= MAX_PRICE_RATIO.
+Proof. intros d. unfold pool_ratio_ok. rewrite andb_true_iff, !Z.leb_le. tauto. Qed.
+
+(* Msg/CreatePool is accepted exactly when the authority parses, both denoms are valid and the
+   three decimals parse into the ranges above *)
+Lemma create_pool_accepts : forall n auth db dq fee ratio off,
+  static_done n (spec_of all_on "liquiditypool.Msg.CreatePool"%string)
+              (VMsg true [VStr auth; VStr db; VStr dq; VStr fee; VStr ratio; VStr off]) = true ->
+  si_acc auth = true /\ si_denom db = true /\ si_denom dq = true /\
+  (exists f, si_dec fee = Some f /\ 0 <= f < P) /\
+  (exists r, si_dec ratio = Some r /\ MIN_PRICE_RATIO <= r <= MAX_PRICE_RATIO) /\
+  (exists o, si_dec off = Some o /\ - P < o < P /\ pow_integer_part o = 0).
+Proof.
+  intros n auth db dq fee ratio off H.
+  cbv [spec_of find_spec specs String.eqb Ascii.eqb Bool.eqb g u all_on hf_on app] in H.
+  simpl in H. unfold rd, okif in H. simpl in H.
+  destruct (si_acc auth); [|discriminate]. destruct (si_denom db); [|discriminate]. destruct (si_denom dq); [|discriminate].
+  unfold dec_ok, dec_pool_fee, dec_pool_ratio, dec_pool_offset, str_dec in H.
+  destruct (si_dec fee) as [f|]; [|discriminate]. destruct (si_dec ratio) as [r|]; [|discriminate].
+  destruct (si_dec off) as [o|]; [|discriminate]. simpl in H.
+  destruct (pool_fee_ok f) eqn:Hf; [|discriminate]. destruct (pool_ratio_ok r) eqn:Hr; [|discriminate].
+  destruct (pool_offset_ok o) eqn:Ho; [|discriminate].
+  repeat split; auto.
+  - exists f. split; [reflexivity|]. apply pool_fee_range. exact Hf.
+  - exists r. split; [reflexivity|]. apply pool_ratio_range. exact Hr.
+  - exists o. split; [reflexivity|]. split; [apply pool_offset_open; exact Ho|apply pool_offset_integer_part; exact Ho].
 Qed.
